@@ -8,9 +8,9 @@
      A  (application): read() k times, then close() = flags; U.abort; Q.abort; join W2; join W1; the
         queue's destructor deletes what is still queued
    The reader program is an arbitrary finite tree (it may depend on the bytes read in any way).
-   Theorems: no reachable state is stuck provided every single request fits the buffer (C06) — and a stuck
-   state exists when one does not (read_deadlock_refuted); the data held is bounded (C12); every object is
-   owned by exactly one party (C11/C13). *)
+   Theorems: no reachable state is stuck (C06) — read(n) raises the buffer size to a request larger than it
+   before it waits, so the writer can always supply what the reader waits for; the data held is bounded (C12);
+   every object is owned by exactly one party (C11/C13). *)
 From Coq Require Import List ZArith Bool Lia.
 From VB Require Import Base BaseFacts.
 Import ListNotations.
@@ -24,7 +24,7 @@ Inductive rprog :=
 | REnd.
 
 Inductive w2pc := W2Next (rest : list (list Z)) | W2Write (c : list Z) (rest : list (list Z)) | W2SetEof | W2Done.
-Inductive w1pc := W1Run (p : rprog) | W1SetEof | W1Done.
+Inductive w1pc := W1Run (p : rprog) | W1Wait (n : Z) (k : list Z -> bool -> rprog) | W1SetEof | W1Done.
 Inductive apc :=
 | ARead (k : nat)                  (* k more calls of read() before close() *)
 | AClose (i : nat)                 (* step i of close(): 0 flag2:=false+file.close, 1 flag1:=false, 2 U.abort, 3 Q.abort, 4 join W2, 5 join W1, 6 ~ObjectQueue *)
@@ -39,7 +39,8 @@ Record rs := {
   freed : list Z;                              (* objects deleted by the library *)
   hw : Z;                                      (* ghost: the furthest get position reached *)
   dropat : Z;                                  (* ghost: get position at the last dropOldData *)
-  made : list Z                                (* ghost: objects the reader has handed to the queue *)
+  made : list Z;                               (* ghost: objects the reader has handed to the queue *)
+  bufsz : Z                                     (* m_bufferSize of the stream: raised by a read request larger than it *)
 }.
 
 Section Read.
@@ -47,12 +48,12 @@ Variables cap buf : Z.
 
 Definition init (conts : list (list Z)) (p : rprog) (k : nat) : rs :=
   {| a_pc := ARead k; got := []; q := []; q_eof := false; q_abort := false; w1 := W1Run p;
-     udata := []; tg := 0; u_eof := false; u_abort := false; w2 := W2Next conts; run2 := true; freed := []; hw := 0; dropat := 0; made := [] |}.
+     udata := []; tg := 0; u_eof := false; u_abort := false; w2 := W2Next conts; run2 := true; freed := []; hw := 0; dropat := 0; made := []; bufsz := buf |}.
 
 Definition fill (s : rs) : Z := zlen (udata s) - tg s.
 
 Definition upd_a (s : rs) p g := {| a_pc := p; got := g; q := q s; q_eof := q_eof s; q_abort := q_abort s; w1 := w1 s;
-  udata := udata s; tg := tg s; u_eof := u_eof s; u_abort := u_abort s; w2 := w2 s; run2 := run2 s; freed := freed s; hw := hw s; dropat := dropat s; made := made s |}.
+  udata := udata s; tg := tg s; u_eof := u_eof s; u_abort := u_abort s; w2 := w2 s; run2 := run2 s; freed := freed s; hw := hw s; dropat := dropat s; made := made s; bufsz := bufsz s |}.
 
 Definition step_A (s : rs) : option rs :=
   match a_pc s with
@@ -60,63 +61,68 @@ Definition step_A (s : rs) : option rs :=
       (* ObjectQueue::read: waits while the queue is empty, its end not declared and not aborted *)
       match q s with
       | o :: r => Some {| a_pc := ARead k; got := got s ++ [Some o]; q := r; q_eof := q_eof s; q_abort := q_abort s; w1 := w1 s;
-                          udata := udata s; tg := tg s; u_eof := u_eof s; u_abort := u_abort s; w2 := w2 s; run2 := run2 s; freed := freed s; hw := hw s; dropat := dropat s; made := made s |}
+                          udata := udata s; tg := tg s; u_eof := u_eof s; u_abort := u_abort s; w2 := w2 s; run2 := run2 s; freed := freed s; hw := hw s; dropat := dropat s; made := made s; bufsz := bufsz s |}
       | [] => if q_eof s || q_abort s then Some (upd_a s (ARead k) (got s ++ [None])) else None
       end
   | ARead O => Some (upd_a s (AClose 0) (got s))
   | AClose 0 => Some {| a_pc := AClose 1; got := got s; q := q s; q_eof := q_eof s; q_abort := q_abort s; w1 := w1 s;
-                        udata := udata s; tg := tg s; u_eof := u_eof s; u_abort := u_abort s; w2 := w2 s; run2 := false; freed := freed s; hw := hw s; dropat := dropat s; made := made s |}
+                        udata := udata s; tg := tg s; u_eof := u_eof s; u_abort := u_abort s; w2 := w2 s; run2 := false; freed := freed s; hw := hw s; dropat := dropat s; made := made s; bufsz := bufsz s |}
   | AClose 1 => Some (upd_a s (AClose 2) (got s))
   | AClose 2 => Some {| a_pc := AClose 3; got := got s; q := q s; q_eof := q_eof s; q_abort := q_abort s; w1 := w1 s;
-                        udata := udata s; tg := tg s; u_eof := u_eof s; u_abort := true; w2 := w2 s; run2 := run2 s; freed := freed s; hw := hw s; dropat := dropat s; made := made s |}
+                        udata := udata s; tg := tg s; u_eof := u_eof s; u_abort := true; w2 := w2 s; run2 := run2 s; freed := freed s; hw := hw s; dropat := dropat s; made := made s; bufsz := bufsz s |}
   | AClose 3 => Some {| a_pc := AClose 4; got := got s; q := q s; q_eof := q_eof s; q_abort := true; w1 := w1 s;
-                        udata := udata s; tg := tg s; u_eof := u_eof s; u_abort := u_abort s; w2 := w2 s; run2 := run2 s; freed := freed s; hw := hw s; dropat := dropat s; made := made s |}
+                        udata := udata s; tg := tg s; u_eof := u_eof s; u_abort := u_abort s; w2 := w2 s; run2 := run2 s; freed := freed s; hw := hw s; dropat := dropat s; made := made s; bufsz := bufsz s |}
   | AClose 4 => match w2 s with W2Done => Some (upd_a s (AClose 5) (got s)) | _ => None end
   | AClose 5 => match w1 s with W1Done => Some (upd_a s (AClose 6) (got s)) | _ => None end
   | AClose 6 => Some {| a_pc := ADone; got := got s; q := []; q_eof := q_eof s; q_abort := q_abort s; w1 := w1 s;
-                        udata := udata s; tg := tg s; u_eof := u_eof s; u_abort := u_abort s; w2 := w2 s; run2 := run2 s; freed := freed s ++ q s; hw := hw s; dropat := dropat s; made := made s |}
+                        udata := udata s; tg := tg s; u_eof := u_eof s; u_abort := u_abort s; w2 := w2 s; run2 := run2 s; freed := freed s ++ q s; hw := hw s; dropat := dropat s; made := made s; bufsz := bufsz s |}
   | AClose _ => None
   | ADone => None
   end.
 
 Definition upd_w1 (s : rs) p := {| a_pc := a_pc s; got := got s; q := q s; q_eof := q_eof s; q_abort := q_abort s; w1 := p;
-  udata := udata s; tg := tg s; u_eof := u_eof s; u_abort := u_abort s; w2 := w2 s; run2 := run2 s; freed := freed s; hw := hw s; dropat := dropat s; made := made s |}.
+  udata := udata s; tg := tg s; u_eof := u_eof s; u_abort := u_abort s; w2 := w2 s; run2 := run2 s; freed := freed s; hw := hw s; dropat := dropat s; made := made s; bufsz := bufsz s |}.
 
 Definition step_W1 (s : rs) : option rs :=
   match w1 s with
   | W1Run (RRead n k) =>
-      (* UncompressedFile::read: waits until n bytes are there, the request crosses the declared end, or abort *)
+      (* UncompressedFile::read, on entry: a request larger than the buffer raises the buffer size (and notifies the writer) *)
+      Some {| a_pc := a_pc s; got := got s; q := q s; q_eof := q_eof s; q_abort := q_abort s; w1 := W1Wait n k;
+              udata := udata s; tg := tg s; u_eof := u_eof s; u_abort := u_abort s; w2 := w2 s; run2 := run2 s; freed := freed s;
+              hw := hw s; dropat := dropat s; made := made s; bufsz := Z.max (bufsz s) n |}
+  | W1Wait n k =>
+      (* ... then it waits until n bytes are there, the request crosses the declared end, or abort *)
       if u_abort s || (n + tg s <=? zlen (udata s)) || u_eof s then
         let beyond := u_eof s && (zlen (udata s) <? n + tg s) in
         let bytes := ztake n (zdrop (tg s) (udata s)) in
         Some {| a_pc := a_pc s; got := got s; q := q s; q_eof := q_eof s; q_abort := q_abort s; w1 := W1Run (k bytes (negb beyond));
                 udata := udata s; tg := tg s + zlen bytes; u_eof := u_eof s; u_abort := u_abort s; w2 := w2 s; run2 := run2 s; freed := freed s;
-                hw := Z.max (hw s) (tg s + zlen bytes); dropat := dropat s; made := made s |}
+                hw := Z.max (hw s) (tg s + zlen bytes); dropat := dropat s; made := made s; bufsz := bufsz s |}
       else None
   | W1Run (RSeek off k) =>
       Some {| a_pc := a_pc s; got := got s; q := q s; q_eof := q_eof s; q_abort := q_abort s; w1 := W1Run k;
               udata := udata s; tg := if u_eof s then Z.min (tg s + off) (zlen (udata s)) else tg s + off;
               u_eof := u_eof s; u_abort := u_abort s; w2 := w2 s; run2 := run2 s; freed := freed s;
-              hw := Z.max (hw s) (if u_eof s then Z.min (tg s + off) (zlen (udata s)) else tg s + off); dropat := dropat s; made := made s |}
+              hw := Z.max (hw s) (if u_eof s then Z.min (tg s + off) (zlen (udata s)) else tg s + off); dropat := dropat s; made := made s; bufsz := bufsz s |}
   | W1Run (RDeliver o k) =>
       (* ObjectQueue::write: waits while the queue is at its capacity, unless aborted *)
       if q_abort s || (zlen (q s) <? cap) then
         Some {| a_pc := a_pc s; got := got s; q := q s ++ [o]; q_eof := q_eof s; q_abort := q_abort s; w1 := W1Run k;
                 udata := udata s; tg := tg s; u_eof := u_eof s; u_abort := u_abort s; w2 := w2 s; run2 := run2 s; freed := freed s;
-                hw := hw s; dropat := dropat s; made := made s ++ [o] |}
+                hw := hw s; dropat := dropat s; made := made s ++ [o]; bufsz := bufsz s |}
       else None
   | W1Run (RDrop k) =>
       Some {| a_pc := a_pc s; got := got s; q := q s; q_eof := q_eof s; q_abort := q_abort s; w1 := W1Run k;
               udata := udata s; tg := tg s; u_eof := u_eof s; u_abort := u_abort s; w2 := w2 s; run2 := run2 s; freed := freed s;
-              hw := hw s; dropat := Z.max (dropat s) (Z.min (tg s) (zlen (udata s))); made := made s |}
+              hw := hw s; dropat := Z.max (dropat s) (Z.min (tg s) (zlen (udata s))); made := made s; bufsz := bufsz s |}
   | W1Run REnd => Some (upd_w1 s W1SetEof)
   | W1SetEof => Some {| a_pc := a_pc s; got := got s; q := q s; q_eof := true; q_abort := q_abort s; w1 := W1Done;
-                        udata := udata s; tg := tg s; u_eof := u_eof s; u_abort := u_abort s; w2 := w2 s; run2 := run2 s; freed := freed s; hw := hw s; dropat := dropat s; made := made s |}
+                        udata := udata s; tg := tg s; u_eof := u_eof s; u_abort := u_abort s; w2 := w2 s; run2 := run2 s; freed := freed s; hw := hw s; dropat := dropat s; made := made s; bufsz := bufsz s |}
   | W1Done => None
   end.
 
 Definition upd_w2 (s : rs) p := {| a_pc := a_pc s; got := got s; q := q s; q_eof := q_eof s; q_abort := q_abort s; w1 := w1 s;
-  udata := udata s; tg := tg s; u_eof := u_eof s; u_abort := u_abort s; w2 := p; run2 := run2 s; freed := freed s; hw := hw s; dropat := dropat s; made := made s |}.
+  udata := udata s; tg := tg s; u_eof := u_eof s; u_abort := u_abort s; w2 := p; run2 := run2 s; freed := freed s; hw := hw s; dropat := dropat s; made := made s; bufsz := bufsz s |}.
 
 Definition step_W2 (s : rs) : option rs :=
   match w2 s with
@@ -127,12 +133,12 @@ Definition step_W2 (s : rs) : option rs :=
       end
   | W2Write c r =>
       (* UncompressedFile::write(logContainer): waits for tellp - tellg < bufferSize or abort *)
-      if u_abort s || (fill s <? buf) then
+      if u_abort s || (fill s <? bufsz s) then
         Some {| a_pc := a_pc s; got := got s; q := q s; q_eof := q_eof s; q_abort := q_abort s; w1 := w1 s;
-                udata := udata s ++ c; tg := tg s; u_eof := u_eof s; u_abort := u_abort s; w2 := W2Next r; run2 := run2 s; freed := freed s; hw := hw s; dropat := dropat s; made := made s |}
+                udata := udata s ++ c; tg := tg s; u_eof := u_eof s; u_abort := u_abort s; w2 := W2Next r; run2 := run2 s; freed := freed s; hw := hw s; dropat := dropat s; made := made s; bufsz := bufsz s |}
       else None
   | W2SetEof => Some {| a_pc := a_pc s; got := got s; q := q s; q_eof := q_eof s; q_abort := q_abort s; w1 := w1 s;
-                        udata := udata s; tg := tg s; u_eof := true; u_abort := u_abort s; w2 := W2Done; run2 := run2 s; freed := freed s; hw := hw s; dropat := dropat s; made := made s |}
+                        udata := udata s; tg := tg s; u_eof := true; u_abort := u_abort s; w2 := W2Done; run2 := run2 s; freed := freed s; hw := hw s; dropat := dropat s; made := made s; bufsz := bufsz s |}
   | W2Done => None
   end.
 
@@ -146,16 +152,6 @@ Inductive reach (c : list (list Z)) (p : rprog) (k : nat) : rs -> Prop :=
 
 Definition finished (s : rs) : Prop := a_pc s = ADone /\ w1 s = W1Done /\ w2 s = W2Done.
 
-(* every single request of the reader fits the buffer *)
-Inductive req_le : rprog -> Prop :=
-| rl_read : forall n k, n <= buf -> (forall b g, req_le (k b g)) -> req_le (RRead n k)
-| rl_seek : forall off k, req_le k -> req_le (RSeek off k)
-| rl_deliver : forall o k, req_le k -> req_le (RDeliver o k)
-| rl_drop : forall k, req_le k -> req_le (RDrop k)
-| rl_end : req_le REnd.
-
-Definition w1_ok (p : w1pc) : Prop := match p with W1Run r => req_le r | _ => True end.
-
 Definition close_ge (n : nat) (p : apc) : bool :=
   match p with AClose i => Nat.leb n i | ADone => true | ARead _ => false end.
 
@@ -168,14 +164,14 @@ Definition Inv (s : rs) : Prop :=
   (close_ge 5 (a_pc s) = true -> w2 s = W2Done) /\
   (close_ge 6 (a_pc s) = true -> w1 s = W1Done) /\
   (forall i, a_pc s = AClose i -> (i <= 6)%nat) /\
-  w1_ok (w1 s).
+  (forall n k, w1 s = W1Wait n k -> n <= bufsz s).
 
-Lemma inv_init c p k : req_le p -> Inv (init c p k).
+Lemma inv_init c p k : Inv (init c p k).
 Proof.
-  intros Hp. unfold Inv, init; cbn.
+  unfold Inv, init; cbn.
   split; [intros C; discriminate|]. split; [intros C; discriminate|]. split; [intros C; discriminate|].
   split; [intros C; discriminate|]. split; [intros C; discriminate|]. split; [intros C; discriminate|].
-  split; [intros C; discriminate|]. split; [intros i C; discriminate|]. exact Hp.
+  split; [intros C; discriminate|]. split; [intros i C; discriminate|]. intros n k0 C; discriminate.
 Qed.
 
 Ltac use_hyps :=
@@ -208,27 +204,28 @@ Proof.
       * inversion H; subst; clear H. unfold Inv; cbn in *. crush.
     + discriminate.
   - (* worker 1 *)
-    unfold step_W1 in H. destruct (w1 s) as [[n k|off k|o k|k|]| |] eqn:E1.
-    + destruct (u_abort s || (n + tg s <=? zlen (udata s)) || u_eof s); [|discriminate]. inversion H; subst; clear H.
-      unfold Inv; cbn in *. rewrite ?E1 in *. cbn in I9. inversion I9; subst. crush.
-    + inversion H; subst; clear H. unfold Inv; cbn in *. rewrite ?E1 in *. cbn in I9. inversion I9; subst. crush.
+    unfold step_W1 in H. destruct (w1 s) as [[n k|off k|o k|k|]|n k| |] eqn:E1.
+    + inversion H; subst; clear H. unfold Inv; cbn in *. rewrite ?E1 in *. crush. inversion H; subst. match goal with X : (_ ?= _) = Gt |- _ => apply Z.compare_gt_iff in X end. lia.
+    + inversion H; subst; clear H. unfold Inv; cbn in *. rewrite ?E1 in *. crush.
     + destruct (q_abort s || (zlen (q s) <? cap)); [|discriminate]. inversion H; subst; clear H.
-      unfold Inv; cbn in *. rewrite ?E1 in *. cbn in I9. inversion I9; subst. crush.
-    + inversion H; subst; clear H. unfold Inv; cbn in *. rewrite ?E1 in *. cbn in I9. inversion I9; subst. crush.
+      unfold Inv; cbn in *. rewrite ?E1 in *. crush.
+    + inversion H; subst; clear H. unfold Inv; cbn in *. rewrite ?E1 in *. crush.
     + inversion H; subst; clear H. unfold Inv, upd_w1; cbn in *. rewrite ?E1 in *. crush.
+    + destruct (u_abort s || (n + tg s <=? zlen (udata s)) || u_eof s); [|discriminate]. inversion H; subst; clear H.
+      unfold Inv; cbn in *. rewrite ?E1 in *. crush.
     + inversion H; subst; clear H. unfold Inv; cbn in *. rewrite ?E1 in *. crush.
     + discriminate.
   - (* worker 2 *)
     unfold step_W2 in H. destruct (w2 s) as [[|c r]|c r| |] eqn:E2.
     + inversion H; subst; clear H. unfold Inv, upd_w2; cbn in *. rewrite ?E2 in *. crush.
     + destruct (run2 s); inversion H; subst; clear H; unfold Inv, upd_w2; cbn in *; rewrite ?E2 in *; crush.
-    + destruct (u_abort s || (fill s <? buf)); [|discriminate]. inversion H; subst; clear H. unfold Inv; cbn in *. rewrite ?E2 in *. crush.
+    + destruct (u_abort s || (fill s <? bufsz s)); [|discriminate]. inversion H; subst; clear H. unfold Inv; cbn in *. rewrite ?E2 in *. crush.
     + inversion H; subst; clear H. unfold Inv; cbn in *. rewrite ?E2 in *. crush.
     + discriminate.
 Qed.
 
-Lemma inv_reach c p k s : req_le p -> reach c p k s -> Inv s.
-Proof. intros Hp. induction 1; [apply inv_init; exact Hp|eapply inv_step; eauto]. Qed.
+Lemma inv_reach c p k s : reach c p k s -> Inv s.
+Proof. induction 1; [apply inv_init|eapply inv_step; eauto]. Qed.
 
 (* ---------- C06 (read): no reachable state is stuck ---------- *)
 Hypothesis Hcap : 1 <= cap.
@@ -237,25 +234,25 @@ Theorem stuck_free : forall s, Inv s -> ~ finished s -> exists t s', step t s = 
 Proof.
   intros s (I1 & I2 & I3 & I4 & I5 & I6 & I7 & I8 & I9) NF.
   (* whenever worker 2 is not done it can move unless it waits in write(container) *)
-  assert (W2ok : w2 s <> W2Done -> (u_abort s = true \/ fill s < buf) -> exists t s', step t s = Some s').
+  assert (W2ok : w2 s <> W2Done -> (u_abort s = true \/ fill s < bufsz s) -> exists t s', step t s = Some s').
   { intros N G. exists TW2. unfold step, step_W2. destruct (w2 s) as [[|c r]|c r| |] eqn:E2; try (eexists; reflexivity).
     - destruct (run2 s); eexists; reflexivity.
-    - replace (u_abort s || (fill s <? buf)) with true; [eexists; reflexivity|].
+    - replace (u_abort s || (fill s <? bufsz s)) with true; [eexists; reflexivity|].
       symmetry. destruct G as [G|G]; [rewrite G; reflexivity|]. apply orb_true_intro. right. apply Z.ltb_lt. exact G.
     - contradiction. }
   (* whenever worker 1 is not done it can move unless it waits in read(n) or in write(obj) *)
   assert (W1ok : w1 s <> W1Done ->
-            (forall n k, w1 s = W1Run (RRead n k) -> u_abort s = true \/ n + tg s <= zlen (udata s) \/ u_eof s = true) ->
+            (forall n k, w1 s = W1Wait n k -> u_abort s = true \/ n + tg s <= zlen (udata s) \/ u_eof s = true) ->
             (forall o k, w1 s = W1Run (RDeliver o k) -> q_abort s = true \/ zlen (q s) < cap) ->
             exists t s', step t s = Some s').
-  { intros N GR GD. exists TW1. unfold step, step_W1. destruct (w1 s) as [[n k|off k|o k|k|]| |] eqn:E1; try (eexists; reflexivity).
+  { intros N GR GD. exists TW1. unfold step, step_W1. destruct (w1 s) as [[n k|off k|o k|k|]|n k| |] eqn:E1; try (eexists; reflexivity).
+    - replace (q_abort s || (zlen (q s) <? cap)) with true; [eexists; reflexivity|].
+      symmetry. destruct (GD o k eq_refl) as [G|G]; [rewrite G; reflexivity|]. apply Z.ltb_lt in G. rewrite G. apply orb_true_r.
     - replace (u_abort s || (n + tg s <=? zlen (udata s)) || u_eof s) with true; [eexists; reflexivity|].
       symmetry. destruct (GR n k eq_refl) as [G|[G|G]].
       + rewrite G. reflexivity.
       + apply Z.leb_le in G. rewrite G. rewrite orb_true_r. reflexivity.
       + rewrite G. rewrite orb_true_r. reflexivity.
-    - replace (q_abort s || (zlen (q s) <? cap)) with true; [eexists; reflexivity|].
-      symmetry. destruct (GD o k eq_refl) as [G|G]; [rewrite G; reflexivity|]. apply Z.ltb_lt in G. rewrite G. apply orb_true_r.
     - contradiction. }
   destruct (a_pc s) as [[|k]|i|] eqn:EA.
   - exists TA. eexists. unfold step, step_A. rewrite EA. reflexivity.
@@ -267,18 +264,18 @@ Proof.
     apply orb_false_elim in EG. destruct EG as [Ee Ea].
     (* the queue is empty and its end is not declared: worker 1 is not done *)
     assert (N1 : w1 s <> W1Done) by (intros C; apply I1 in C; congruence).
-    destruct (w1 s) as [[n k0|off k0|o k0|k0|]| |] eqn:E1; try (apply W1ok; [exact N1|intros ? ? C; discriminate|intros ? ? C; discriminate]).
-    + (* worker 1 in read(n) *)
+    destruct (w1 s) as [[n k0|off k0|o k0|k0|]|n k0| |] eqn:E1; try (apply W1ok; [exact N1|intros ? ? C; discriminate|intros ? ? C; discriminate]).
+    + (* worker 1 in write(obj): the queue is empty *)
+      apply W1ok; [exact N1|intros ? ? C; discriminate|]. intros o' k' C. right. rewrite ?EQ. cbn. lia.
+    + (* worker 1 waits in read(n) *)
       destruct (u_abort s) eqn:Eu; [apply W1ok; [exact N1| |intros ? ? C; discriminate]; intros n' k' C; left; reflexivity|].
       destruct (n + tg s <=? zlen (udata s)) eqn:En.
       { apply W1ok; [exact N1| |intros ? ? C; discriminate]. intros n' k' C. inversion C; subst. right. left. apply Z.leb_le. exact En. }
       destruct (u_eof s) eqn:Ef.
       { apply W1ok; [exact N1| |intros ? ? C; discriminate]. intros n' k' C. right. right. reflexivity. }
-      (* it waits: fewer than n <= buf bytes buffered and the end not declared: worker 2 is not done and may write *)
-      apply Z.leb_gt in En. cbn in I9. inversion I9; subst.
+      (* fewer than n bytes buffered, n <= buffer size (raised on entry), the end not declared: worker 2 is not done and may write *)
+      apply Z.leb_gt in En. pose proof (I9 n k0 eq_refl) as Hn.
       apply W2ok; [intros C; apply I2 in C; congruence|]. right. unfold fill. lia.
-    + (* worker 1 in write(obj): the queue is empty *)
-      apply W1ok; [exact N1|intros ? ? C; discriminate|]. intros o' k' C. right. rewrite ?EQ. cbn. lia.
   - (* close() *)
     pose proof (I8 i eq_refl) as Hi.
     destruct i as [|[|[|[|[|[|[|i]]]]]]]; try lia; cbn in *;
@@ -289,7 +286,7 @@ Proof.
       * exists TA. eexists. unfold step, step_A. rewrite EA, D. reflexivity.
       * apply W2ok; [exact D|left; apply I4; reflexivity].
     + (* join worker 1 *)
-      assert (D : w1 s = W1Done \/ w1 s <> W1Done) by (destruct (w1 s); [right|right|left]; congruence).
+      assert (D : w1 s = W1Done \/ w1 s <> W1Done) by (destruct (w1 s); [right|right|right|left]; congruence).
       destruct D as [D|D].
       * exists TA. eexists. unfold step, step_A. rewrite EA, D. reflexivity.
       * apply W1ok; [exact D| |]; intros; left; auto.
@@ -301,63 +298,77 @@ End Read.
 (* ====================================================================================== *)
 Section ReadData.
 Variables cap buf : Z.
-Notation step := (step cap buf).
+Notation step := (step cap).
 Notation reach := (reach cap buf).
 
 (* ---------- C12 (read): data held is bounded, independent of the length of the file ---------- *)
-(* M bounds the size of a single container.  While close() has not aborted the stream:
-   - the bytes buffered ahead of the furthest position the reader has reached stay below buffer + one container;
+(* M bounds the size of a single container, R every single read request of the reader.  While close() has not
+   aborted the stream:
+   - the bytes buffered ahead of the furthest position the reader has reached stay below max(buffer, R) + one container;
    - the queue never exceeds its capacity;
    - dropOldData was last called no further back than the reader's progress since then (span).
    What UncompressedFile holds is therefore at most  span + buffer + 2 containers, whatever the file length
    (C15_drop_frame: after dropOldData the first container kept ends after the get position). *)
-Definition BoundR (M : Z) (s : rs) : Prop :=
+(* R bounds every single request of the reader program *)
+Inductive req_bound (R : Z) : rprog -> Prop :=
+| rb_read : forall n k, n <= R -> (forall b g, req_bound R (k b g)) -> req_bound R (RRead n k)
+| rb_seek : forall off k, req_bound R k -> req_bound R (RSeek off k)
+| rb_deliver : forall o k, req_bound R k -> req_bound R (RDeliver o k)
+| rb_drop : forall k, req_bound R k -> req_bound R (RDrop k)
+| rb_end : req_bound R REnd.
+Definition w1_bound (R : Z) (p : w1pc) : Prop :=
+  match p with W1Run r => req_bound R r | W1Wait n k => n <= R /\ forall b g, req_bound R (k b g) | _ => True end.
+
+Definition BoundR (M R : Z) (s : rs) : Prop :=
   tg s <= hw s /\ dropat s <= hw s /\
-  (u_abort s = false -> zlen (udata s) - hw s <= Z.max 0 (buf - 1) + M) /\
+  (u_abort s = false -> zlen (udata s) - hw s <= Z.max 0 (Z.max buf R - 1) + M) /\
   (q_abort s = false -> zlen (q s) <= Z.max cap 0) /\
   match w2 s with W2Next r | W2Write _ r => Forall (fun c => zlen c <= M) r | _ => True end /\
-  match w2 s with W2Write c _ => zlen c <= M | _ => True end.
+  match w2 s with W2Write c _ => zlen c <= M | _ => True end /\
+  buf <= bufsz s <= Z.max buf R /\ w1_bound R (w1 s).
 
-Theorem read_bounded : forall M c p k s, 0 <= M -> Forall (fun x => zlen x <= M) c -> reach c p k s -> BoundR M s.
+Theorem read_bounded : forall M R c p k s, 0 <= M -> Forall (fun x => zlen x <= M) c -> req_bound R p -> reach c p k s -> BoundR M R s.
 Proof.
-  intros M c p k s HM Hc R. induction R as [|s t s' R IH H].
+  intros M R0 c p k s HM Hc HR R. induction R as [|s t s' R IH H].
   - unfold BoundR, init; cbn. repeat split; auto; try lia.
-  - destruct IH as (B1 & B2 & B3 & B4 & B5 & B6). destruct t; cbn [RPipe.step] in H.
+  - destruct IH as (B1 & B2 & B3 & B4 & B5 & B6 & B7 & B8). destruct t; cbn [RPipe.step] in H.
     + unfold step_A in H. destruct (a_pc s) as [[|k']|i|] eqn:EA.
-      * inversion H; subst; clear H. unfold BoundR, upd_a; cbn. repeat split; auto.
+      * inversion H; subst; clear H. unfold BoundR, upd_a; cbn. repeat split; auto; lia.
       * destruct (q s) as [|o r] eqn:EQ.
-        -- destruct (q_eof s || q_abort s); [|discriminate]. inversion H; subst; clear H. unfold BoundR, upd_a; cbn. rewrite ?EQ in *. repeat split; auto.
-        -- inversion H; subst; clear H. unfold BoundR; cbn. rewrite ?EQ in *. repeat split; auto.
+        -- destruct (q_eof s || q_abort s); [|discriminate]. inversion H; subst; clear H. unfold BoundR, upd_a; cbn. rewrite ?EQ in *. repeat split; auto; lia.
+        -- inversion H; subst; clear H. unfold BoundR; cbn. rewrite ?EQ in *. repeat split; auto; try lia.
            intros A. specialize (B4 A). rewrite zlen_cons in B4. pose proof (zlen_nonneg r). lia.
       * destruct i as [|[|[|[|[|[|[|i]]]]]]]; try discriminate.
-        -- inversion H; subst; clear H. unfold BoundR; cbn. repeat split; auto.
-        -- inversion H; subst; clear H. unfold BoundR, upd_a; cbn. repeat split; auto.
-        -- inversion H; subst; clear H. unfold BoundR; cbn. repeat split; auto. intros C; discriminate.
-        -- inversion H; subst; clear H. unfold BoundR; cbn. repeat split; auto. intros C; discriminate.
-        -- destruct (w2 s) eqn:E2; try discriminate. inversion H; subst; clear H. unfold BoundR, upd_a; cbn. rewrite ?E2 in *. repeat split; auto.
-        -- destruct (w1 s); try discriminate. inversion H; subst; clear H. unfold BoundR, upd_a; cbn. repeat split; auto.
-        -- inversion H; subst; clear H. unfold BoundR; cbn. repeat split; auto. intros _. cbn. lia.
+        -- inversion H; subst; clear H. unfold BoundR; cbn. repeat split; auto; lia.
+        -- inversion H; subst; clear H. unfold BoundR, upd_a; cbn. repeat split; auto; lia.
+        -- inversion H; subst; clear H. unfold BoundR; cbn. repeat split; auto; try lia; try (intros C; discriminate).
+        -- inversion H; subst; clear H. unfold BoundR; cbn. repeat split; auto; try lia; try (intros C; discriminate).
+        -- destruct (w2 s) eqn:E2; try discriminate. inversion H; subst; clear H. unfold BoundR, upd_a; cbn. rewrite ?E2 in *. repeat split; auto; lia.
+        -- destruct (w1 s) eqn:E1; try discriminate. inversion H; subst; clear H. unfold BoundR, upd_a; cbn. rewrite ?E1 in *. repeat split; auto; lia.
+        -- inversion H; subst; clear H. unfold BoundR; cbn. repeat split; auto; try lia; try (intros _; cbn; lia).
       * discriminate.
-    + unfold step_W1 in H. destruct (w1 s) as [[n k'|off k'|o k'|k'|]| |] eqn:E1.
+    + unfold step_W1 in H. destruct (w1 s) as [[n k'|off k'|o k'|k'|]|n k'| |] eqn:E1; cbn [w1_bound] in B8.
+      * inversion H; subst; clear H. inversion B8; subst. unfold BoundR; cbn. repeat split; auto; try lia.
+      * inversion H; subst; clear H. inversion B8; subst. unfold BoundR; cbn. repeat split; auto; try lia; try (intros A; specialize (B3 A); lia).
+      * destruct (q_abort s || (zlen (q s) <? cap)) eqn:G; [|discriminate]. inversion H; subst; clear H. inversion B8; subst.
+        unfold BoundR; cbn. repeat split; auto; try lia.
+        intros A. rewrite A in G. cbn in G. apply Z.ltb_lt in G. rewrite zlen_app. cbn. lia.
+      * inversion H; subst; clear H. inversion B8; subst. unfold BoundR; cbn. repeat split; auto; lia.
+      * inversion H; subst; clear H. unfold BoundR, upd_w1; cbn. repeat split; auto; lia.
       * destruct (u_abort s || (n + tg s <=? zlen (udata s)) || u_eof s); [|discriminate]. inversion H; subst; clear H.
+        destruct B8 as [Bn Bk].
         unfold BoundR; cbn. pose proof (zlen_nonneg (ztake n (zdrop (tg s) (udata s)))). repeat split; auto; try lia;
           try (intros A; specialize (B3 A); lia).
-      * inversion H; subst; clear H. unfold BoundR; cbn. repeat split; auto; try lia; try (intros A; specialize (B3 A); lia).
-      * destruct (q_abort s || (zlen (q s) <? cap)) eqn:G; [|discriminate]. inversion H; subst; clear H.
-        unfold BoundR; cbn. repeat split; auto.
-        intros A. rewrite A in G. cbn in G. apply Z.ltb_lt in G. rewrite zlen_app. cbn. lia.
-      * inversion H; subst; clear H. unfold BoundR; cbn. repeat split; auto. lia.
-      * inversion H; subst; clear H. unfold BoundR, upd_w1; cbn. repeat split; auto.
-      * inversion H; subst; clear H. unfold BoundR; cbn. repeat split; auto.
+      * inversion H; subst; clear H. unfold BoundR; cbn. repeat split; auto; lia.
       * discriminate.
     + unfold step_W2 in H. destruct (w2 s) as [[|c' r]|c' r| |] eqn:E2.
-      * inversion H; subst; clear H. unfold BoundR, upd_w2; cbn. repeat split; auto.
+      * inversion H; subst; clear H. unfold BoundR, upd_w2; cbn. repeat split; auto; lia.
       * apply Forall_cons_iff in B5. destruct B5 as [Bc Br].
-        destruct (run2 s); inversion H; subst; clear H; unfold BoundR, upd_w2; cbn; repeat split; auto.
-      * destruct (u_abort s || (fill s <? buf)) eqn:G; [|discriminate]. inversion H; subst; clear H.
-        unfold BoundR; cbn. repeat split; auto.
+        destruct (run2 s); inversion H; subst; clear H; unfold BoundR, upd_w2; cbn; repeat split; auto; lia.
+      * destruct (u_abort s || (fill s <? bufsz s)) eqn:G; [|discriminate]. inversion H; subst; clear H.
+        unfold BoundR; cbn. repeat split; auto; try lia.
         intros A. rewrite A in G. cbn in G. apply Z.ltb_lt in G. unfold fill in G. rewrite zlen_app. lia.
-      * inversion H; subst; clear H. unfold BoundR; cbn. repeat split; auto.
+      * inversion H; subst; clear H. unfold BoundR; cbn. repeat split; auto; lia.
       * discriminate.
 Qed.
 
@@ -406,9 +417,8 @@ Proof.
     + assert (ND : w1 s <> W1Done -> freed s = [] /\ a_pc s <> ADone).
       { intros N. assert (A : a_pc s <> ADone) by (intros C; apply N; apply O3; rewrite C; reflexivity).
         split; [|exact A]. destruct (freed s) eqn:EF; [reflexivity|]. exfalso. apply A. apply O2. discriminate. }
-      unfold step_W1 in H. destruct (w1 s) as [[n k'|off k'|o k'|k'|]| |] eqn:E1.
-      * destruct (u_abort s || (n + tg s <=? zlen (udata s)) || u_eof s); [|discriminate]. inversion H; subst; clear H.
-        destruct ND as [NF NA]; [discriminate|]. unfold Owned; cbn. repeat split; auto. intros C. specialize (O3 C). discriminate.
+      unfold step_W1 in H. destruct (w1 s) as [[n k'|off k'|o k'|k'|]|n k'| |] eqn:E1.
+      * inversion H; subst; clear H. destruct ND as [NF NA]; [discriminate|]. unfold Owned; cbn. repeat split; auto. intros C. specialize (O3 C). discriminate.
       * inversion H; subst; clear H. destruct ND as [NF NA]; [discriminate|]. unfold Owned; cbn. repeat split; auto. intros C. specialize (O3 C). discriminate.
       * destruct (q_abort s || (zlen (q s) <? cap)); [|discriminate]. inversion H; subst; clear H.
         destruct ND as [NF NA]; [discriminate|]. unfold Owned; cbn. rewrite NF in *. rewrite !app_nil_r in *.
@@ -418,12 +428,14 @@ Proof.
         -- intros C. contradiction.
       * inversion H; subst; clear H. destruct ND as [NF NA]; [discriminate|]. unfold Owned; cbn. repeat split; auto. intros C. specialize (O3 C). discriminate.
       * inversion H; subst; clear H. destruct ND as [NF NA]; [discriminate|]. unfold Owned, upd_w1; cbn. repeat split; auto. intros C. specialize (O3 C). discriminate.
+      * destruct (u_abort s || (n + tg s <=? zlen (udata s)) || u_eof s); [|discriminate]. inversion H; subst; clear H.
+        destruct ND as [NF NA]; [discriminate|]. unfold Owned; cbn. repeat split; auto. intros C. specialize (O3 C). discriminate.
       * inversion H; subst; clear H. unfold Owned; cbn. repeat split; auto.
       * discriminate.
     + unfold step_W2 in H. destruct (w2 s) as [[|c' r]|c' r| |] eqn:E2.
       * inversion H; subst; clear H. unfold Owned, upd_w2; cbn. auto.
       * destruct (run2 s); inversion H; subst; clear H; unfold Owned, upd_w2; cbn; auto.
-      * destruct (u_abort s || (fill s <? buf)); [|discriminate]. inversion H; subst; clear H. unfold Owned; cbn. auto.
+      * destruct (u_abort s || (fill s <? bufsz s)); [|discriminate]. inversion H; subst; clear H. unfold Owned; cbn. auto.
       * inversion H; subst; clear H. unfold Owned; cbn. auto.
       * discriminate.
 Qed.
@@ -439,23 +451,16 @@ Qed.
 
 End ReadData.
 
-(* ---------- the hypothesis of stuck_free is necessary ---------- *)
-(* buffer 2, one reader request of 3 bytes, containers of 2 bytes: worker 2 waits for room, worker 1 for
-   the third byte, the application for an object *)
-Definition dead_prog : rprog := RRead 3 (fun _ _ => RDeliver 1 REnd).
-Definition force (o : option rs) (d : rs) : rs := match o with Some x => x | None => d end.
-Definition dead0 : rs := init [[1; 2]; [3; 4]] dead_prog 1.
-Definition dead1 : rs := force (step 10 2 TW2 dead0) dead0.      (* worker 2 takes the first container *)
-Definition dead2 : rs := force (step 10 2 TW2 dead1) dead1.      (* ... appends it: 2 bytes buffered = buffer size *)
-Definition dead3 : rs := force (step 10 2 TW2 dead2) dead2.      (* ... takes the second container and must wait *)
-Theorem read_deadlock_refuted :
-  reach 10 2 [[1; 2]; [3; 4]] dead_prog 1 dead3 /\ ~ finished dead3 /\
-  step 10 2 TA dead3 = None /\ step 10 2 TW1 dead3 = None /\ step 10 2 TW2 dead3 = None.
-Proof.
-  split; [|split; [|split; [|split]]]; try (vm_compute; reflexivity).
-  - apply reach_step with (s := dead2) (t := TW2); [|vm_compute; reflexivity].
-    apply reach_step with (s := dead1) (t := TW2); [|vm_compute; reflexivity].
-    apply reach_step with (s := dead0) (t := TW2); [|vm_compute; reflexivity].
-    apply reach_init.
-  - intros (C & _). vm_compute in C. discriminate.
-Qed.
+(* ---------- the former deadlock (one request above the buffer size) now runs to the end ---------- *)
+(* buffer 2, one reader request of 3 bytes, containers of 2 bytes.  Before the repair of read() worker 2 waited for
+   room, worker 1 for the third byte and the application for an object; now the request raises the buffer size. *)
+Definition big_prog : rprog := RRead 3 (fun _ _ => RDeliver 1 REnd).
+Fixpoint run_sched (cap : Z) (fuel : nat) (s : rs) : rs :=
+  match fuel with O => s | S f =>
+    match step cap TW2 s with Some s' => run_sched cap f s' | None =>
+    match step cap TW1 s with Some s' => run_sched cap f s' | None =>
+    match step cap TA s with Some s' => run_sched cap f s' | None => s end end end end.
+Example big_request_finishes :
+  let s := run_sched 10 40 (init 2 [[1; 2]; [3; 4]] big_prog 1) in
+  a_pc s = ADone /\ w1 s = W1Done /\ w2 s = W2Done /\ got s = [Some 1] /\ bufsz s = 3.
+Proof. vm_compute. repeat split; reflexivity. Qed.
